@@ -47,7 +47,7 @@ def rule_op_gates(check):
     want_names = {"plus_operator": ("DD_PLUS_OPERATOR", "plusOperator"), "tpl_operator": ("DD_TEMPLATE_LITERAL_OPERATOR", "tplOperator")}
     SUBST = {}
 
-    def terms_of_cond_list(fn_, conds):
+    def terms_of_cond_list(fn_, conds, target=None):
         terms = []
         for c in conds:
             if c["t"] == "bool":
@@ -57,6 +57,9 @@ def rule_op_gates(check):
                     while t.get("k") == "Unary" and t["op"] == "Not":
                         neg = not neg
                         t = hir.peel(t["x"])
+                    if target is not None and hir.is_call(t) and (hir.callee_name(t) or t.get("method")) in ("is_none", "is_some") and (hir.local_of(hir.peel_transparent(hir.call_args(t)[0])) or (None,))[0] == target and ((hir.callee_name(t) or t.get("method")) == "is_none") != neg:
+                        # `if slot.is_none() { slot = Some(entry) }`: the first qualifying entry is kept, as `find` does
+                        continue
                     if t.get("k") == "Field" and t["field"] == "operator":
                         terms.append(("!" if neg else "") + "operator")
                     elif t.get("k") == "Binary" and t["op"] in ("Eq", "Ne"):
@@ -110,7 +113,7 @@ def rule_op_gates(check):
                 r = hir.peel(a_["r"])
                 if r.get("k") == "Path" and (r["res"].get("ctor_path") or "").split("::")[-1] == "None":
                     continue
-                out.append(terms_of_cond_list(fn_, [c for c in fn_.conds_at(a_) if c["t"] in ("bool", "pat")]))
+                out.append(terms_of_cond_list(fn_, [c for c in fn_.conds_at(a_) if c["t"] in ("bool", "pat")], target=l[0]))
             return out
         return [["?unrecognised:" + hir.describe(e)[:40]]]
 
